@@ -135,6 +135,10 @@ def main(argv=None):
     if os.environ.get('PYTHONHASHSEED') != '0':
         os.environ['PYTHONHASHSEED'] = '0'
         os.execv(sys.executable, [sys.executable, '-m', 'vt.runner'] + (argv or sys.argv[1:]))
+    # ambient state is an input: the process time zone follows the seed (POSIX TZ strings, no zone database needed); nothing
+    # the properties state depends on it
+    os.environ['TZ'] = ('UTC0', 'JST-9', 'NST3:30', 'XXX-12:45')[seed % 4]
+    time.tzset()
     _prepare_paths()
     import logging
     logging.disable(logging.CRITICAL)   # the code under test logs warnings for every odd input
